@@ -1,0 +1,54 @@
+//go:build verif
+
+package seq
+
+import (
+	"bufio"
+	"fmt"
+	"os"
+	"strconv"
+	"sync"
+)
+
+// verification hook (build tag verif): when GOCO_VERIF_TRACE_FILE is set, the
+// internal events of the runtime are appended to <file>.<pid> as ndjson
+// {"e": event, "c": coroutine number, "t": argument}; used by the verification
+// harness to validate executions against the TLA+ specification of the runtime.
+var verifT struct {
+	mu   sync.Mutex
+	init bool
+	w    *bufio.Writer
+	ids  map[any]int
+	n    int
+	max  int
+}
+
+func vtrace[V any](ev string, c *co[V], t int) {
+	tr := &verifT
+	tr.mu.Lock()
+	defer tr.mu.Unlock()
+	if !tr.init {
+		tr.init = true
+		if p := os.Getenv("GOCO_VERIF_TRACE_FILE"); p != "" {
+			if f, err := os.Create(p + "." + strconv.Itoa(os.Getpid())); err == nil {
+				tr.w = bufio.NewWriter(f)
+				tr.ids = map[any]int{}
+				tr.max = 20000
+				if m, err := strconv.Atoi(os.Getenv("GOCO_VERIF_TRACE_MAX")); err == nil {
+					tr.max = m
+				}
+			}
+		}
+	}
+	if tr.w == nil || tr.n >= tr.max {
+		return
+	}
+	id, ok := tr.ids[c]
+	if !ok {
+		id = len(tr.ids) + 1
+		tr.ids[c] = id
+	}
+	fmt.Fprintf(tr.w, "{\"e\":%q,\"c\":%d,\"t\":%d}\n", ev, id, t)
+	tr.n++
+	tr.w.Flush()
+}
